@@ -413,11 +413,13 @@ func (a *AliveDialerSet) notifyLatencyChange(dialer *Dialer, alive bool) {
 		a.mu.Unlock()
 		a.aliveChangeCallback(true)
 		a.mu.Lock()
+		// minLatency may have been reset by a concurrent SetSelectionPolicy while mu was released:
+		// log the dialer this notification selected, not whatever the field holds now.
 		if a.log.IsLevelEnabled(logrus.InfoLevel) {
 			a.log.WithFields(logrus.Fields{
 				"group":   a.dialerGroupName,
 				"network": a.CheckTyp.String(),
-				"dialer":  a.minLatency.dialer.property.Name,
+				"dialer":  dialer.property.Name,
 			}).Infof("Group selects dialer")
 		}
 	}
